@@ -108,6 +108,10 @@ def c17(tier, seed):
                     cov.nontrivial.add(canon(c))
                     cov.sample({"case": common.brief_case(c), "candidates": len(cl), "valid": nvalid, "invalid": ninvalid,
                                 "one_invalid": next((r for ki, r in enumerate(cl) if verd[(ci + 1, ki + 1)] != "ok"), None)})
+        # the same comparison on designs of 9-24 trials: candidates = behaviours TLC simulated from the specification and
+        # their perturbations (checks_large.py)
+        import checks_large
+        checks_large.run_large("C17", tier, seed, out, cov)
     except tlc.TLCError as e:
         err = str(e)[:2000]
     return common.finish("C17", tier, seed, "model_checking", out, cov.as_dict(
